@@ -57,9 +57,16 @@ def budget(tier):
 
 
 def strategy(tier):
+    from vf.checks.c07 import st_roundtrip_over_pruned_chain
+
     return st.one_of(
         st.tuples(st.just("prog"), st_program(cfg(tier))),
+        st.tuples(st.just("prog"), st_program(cfg(tier))),
         st.tuples(st.just("opt"), c03.st_case(tier, p_restricted=12)),
+        st.tuples(st.just("opt"), c03.st_case(tier, p_restricted=12)),
+        # transfer, chain with a doomed leaf there, transfer back: the Processor prunes the chain and leaves a tree that
+        # the factories themselves never build (engine A over engine B over engine A, transfers carrying payloads)
+        st.tuples(st.just("prog"), st_roundtrip_over_pruned_chain(tier, cfg)),
     )
 
 
@@ -199,6 +206,7 @@ def run_case(case, stats):
                     processed = None  # faithfulness of process() is C07's subject
                 if processed is not None:
                     walk_or_raise(processed, f"Processor.process of {fmt(prog, leaves)}", prog)
+                    check_noops(processed, f"Processor.process of {fmt(prog, leaves)}")
                     stats.c["processed_trees_walked"] += 1
             engines = {l[3] for l in leaves} | {n[2] for n in walk(prog) if n[0] == "xfer"}
             if len(engines) >= 2 or restricted_in(prog):
